@@ -1,5 +1,543 @@
+/-
+  C10 — component functions partition the nodes by the right reachability relation.
+
+  The checkers of Spec/Components.lean are what `tools/check.py` runs on the real implementation's answers
+  (connected / weakly / strongly connected components, node component, BFS, equal-size partitions) and on the
+  model's; here they are proved sound: an accepted answer *is* the partition the property describes.  Then the
+  breadth-first search of the model is proved correct for every graph, and the arithmetic behind
+  bfs_equal_size_partitions is proved.  The strong-components algorithm itself is not proved correct for all
+  graphs (see `C10_scc_full_statement`); its answers are decided by the proved checker on explored graphs.
+-/
 import GraphrsModel.ObsComp
+import Mathlib.Data.List.Perm.Subperm
 namespace Graphrs
-/-- placeholder while the framework is brought up: replaced by the property theorems -/
-theorem C10_reachFix_zero (succ : Nat → List Nat) (l : List Nat) : reachFix succ 0 l = l := rfl
+
+/-! ### helper lemmas: list-sets, insertion sort -/
+
+private theorem mem_sinsert' {α} [DecidableEq α] (s : List α) (x y : α) :
+    y ∈ sinsert s x ↔ y ∈ s ∨ y = x := by
+  unfold sinsert
+  by_cases h : x ∈ s
+  · rw [if_pos h]
+    constructor
+    · exact Or.inl
+    · rintro (h' | rfl)
+      · exact h'
+      · exact h
+  · rw [if_neg h]; simp
+
+private theorem nodup_sinsert' {α} [DecidableEq α] (s : List α) (x : α) (hs : s.Nodup) :
+    (sinsert s x).Nodup := by
+  unfold sinsert
+  by_cases h : x ∈ s
+  · rw [if_pos h]; exact hs
+  · rw [if_neg h]
+    rw [List.nodup_append]
+    refine ⟨hs, by simp, ?_⟩
+    intro a ha b hb
+    rw [List.mem_singleton] at hb
+    subst hb
+    intro hab
+    subst hab
+    exact h ha
+
+private theorem mem_foldl_sinsert' {α} [DecidableEq α] (l acc : List α) (y : α) :
+    y ∈ l.foldl sinsert acc ↔ y ∈ acc ∨ y ∈ l := by
+  induction l generalizing acc with
+  | nil => simp
+  | cons x xs ih =>
+    rw [List.foldl_cons, ih, mem_sinsert', List.mem_cons]
+    constructor
+    · rintro ((h | h) | h)
+      · exact Or.inl h
+      · exact Or.inr (Or.inl h)
+      · exact Or.inr (Or.inr h)
+    · rintro (h | h | h)
+      · exact Or.inl (Or.inl h)
+      · exact Or.inl (Or.inr h)
+      · exact Or.inr h
+
+private theorem nodup_foldl_sinsert' {α} [DecidableEq α] (l acc : List α) (hacc : acc.Nodup) :
+    (l.foldl sinsert acc).Nodup := by
+  induction l generalizing acc with
+  | nil => exact hacc
+  | cons x xs ih => exact ih _ (nodup_sinsert' acc x hacc)
+
+private theorem mem_sunion' {α} [DecidableEq α] (s t : List α) (y : α) :
+    y ∈ sunion s t ↔ y ∈ s ∨ y ∈ t := mem_foldl_sinsert' t s y
+
+private theorem mem_dedup' {α} [DecidableEq α] (l : List α) (y : α) : y ∈ dedup l ↔ y ∈ l := by
+  unfold dedup
+  rw [mem_foldl_sinsert']
+  simp
+
+private theorem nodup_dedup' {α} [DecidableEq α] (l : List α) : (dedup l).Nodup :=
+  nodup_foldl_sinsert' l [] List.nodup_nil
+
+private theorem dedup_subperm' {α} [DecidableEq α] (l : List α) : (dedup l).Subperm l :=
+  (nodup_dedup' l).subperm (fun x hx => (mem_dedup' l x).mp hx)
+
+private theorem length_dedup_eq_iff' {α} [DecidableEq α] (l : List α) :
+    (dedup l).length = l.length ↔ l.Nodup := by
+  constructor
+  · intro h
+    have hp : (dedup l).Perm l := (dedup_subperm' l).perm_of_length_le (Nat.le_of_eq h.symm)
+    exact hp.nodup_iff.mp (nodup_dedup' l)
+  · intro h
+    have hp : (dedup l).Perm l :=
+      (List.perm_ext_iff_of_nodup (nodup_dedup' l) h).mpr (fun x => mem_dedup' l x)
+    exact hp.length_eq
+
+private theorem insertSorted_perm' {α} (le : α → α → Bool) (x : α) (l : List α) :
+    (insertSorted le x l).Perm (x :: l) := by
+  induction l with
+  | nil => exact List.Perm.refl _
+  | cons y ys ih =>
+    unfold insertSorted
+    by_cases h : le x y = true
+    · simp [h]
+    · simp only [h]
+      exact (List.Perm.cons y ih).trans (List.Perm.swap x y ys)
+
+private theorem isort_perm' {α} (le : α → α → Bool) (l : List α) : (isort le l).Perm l := by
+  induction l with
+  | nil => exact List.Perm.refl _
+  | cons x xs ih =>
+    show (insertSorted le x (isort le xs)).Perm (x :: xs)
+    exact (insertSorted_perm' le x _).trans (List.Perm.cons x ih)
+
+private theorem perm_of_sortNat_eq {a b : List Nat} (h : sortNat a = sortNat b) : a.Perm b := by
+  have ha : (sortNat a).Perm a := isort_perm' _ a
+  have hb : (sortNat b).Perm b := isort_perm' _ b
+  exact ha.symm.trans (h ▸ hb)
+
+/-- in a duplicate-free flattening, a value lies in only one of the sets -/
+private theorem flat_nodup_unique (comps : List (List Nat)) (hnd : (comps.flatMap id).Nodup)
+    {c c' : List Nat} (hc : c ∈ comps) (hc' : c' ∈ comps) {x : Nat} (hx : x ∈ c) (hx' : x ∈ c') :
+    c = c' := by
+  induction comps with
+  | nil => cases hc
+  | cons d ds ih =>
+    rw [List.flatMap_cons, List.nodup_append] at hnd
+    obtain ⟨_, hds, hdisj⟩ := hnd
+    have hflat : ∀ e ∈ ds, x ∈ e → x ∈ ds.flatMap id := fun e he hxe =>
+      List.mem_flatMap.mpr ⟨e, he, hxe⟩
+    rcases List.mem_cons.mp hc with rfl | hc1
+    · rcases List.mem_cons.mp hc' with rfl | hc2
+      · rfl
+      · exact absurd rfl (hdisj x hx x (hflat _ hc2 hx'))
+    · rcases List.mem_cons.mp hc' with rfl | hc2
+      · exact absurd rfl (hdisj x hx' x (hflat _ hc1 hx))
+      · exact ih hds hc1 hc2
+
+/-- **soundness of the partition checker**: non-empty, pairwise disjoint sets that together contain every node exactly
+    once, two nodes of one set are related, and related nodes share a set -/
+theorem C10_checkPartitionBy_sound (nodes : List Nat) (rel : Nat → Nat → Bool) (comps : List (List Nat))
+    (h : checkPartitionBy nodes rel comps = none) :
+    (∀ c ∈ comps, c ≠ []) ∧ (comps.flatMap id).Nodup ∧ (∀ x, x ∈ comps.flatMap id ↔ x ∈ nodes) ∧
+    (∀ c ∈ comps, ∀ x ∈ c, ∀ y ∈ c, rel x y = true) ∧
+    (∀ x ∈ nodes, ∀ y ∈ nodes, rel x y = true → ∀ c ∈ comps, x ∈ c → y ∈ c) := by
+  unfold checkPartitionBy at h
+  simp only at h
+  split at h
+  · cases h
+  next h1 =>
+  split at h
+  · cases h
+  next h2 =>
+  split at h
+  · cases h
+  next h3 =>
+  split at h
+  · cases h
+  next h4 =>
+  split at h
+  · cases h
+  next h5 =>
+  simp only [bne_iff_ne, ne_eq, Decidable.not_not] at h2 h3
+  have hnd : (comps.flatMap id).Nodup := (length_dedup_eq_iff' _).mp h2.symm
+  have hperm : (comps.flatMap id).Perm nodes := perm_of_sortNat_eq h3
+  simp only [List.any_eq_true, not_exists, not_and, Bool.not_eq_true', Bool.not_eq_false,
+    Bool.and_eq_true, bne_iff_ne, ne_eq, Decidable.not_not, List.isEmpty_iff] at h1 h4 h5
+  have hfind : ∀ z ∈ nodes, ∃ d, comps.find? (·.contains z) = some d ∧ d ∈ comps ∧ z ∈ d := by
+    intro z hz
+    have hz' : z ∈ comps.flatMap id := hperm.mem_iff.mpr hz
+    obtain ⟨e, he, hze⟩ := List.mem_flatMap.mp hz'
+    cases hf : comps.find? (·.contains z) with
+    | none =>
+      have := List.find?_eq_none.mp hf e he
+      simp only [id] at hze
+      simp [hze] at this
+    | some d =>
+      refine ⟨d, rfl, List.mem_of_find?_eq_some hf, ?_⟩
+      have := List.find?_some hf
+      simpa using this
+  refine ⟨?_, hnd, fun x => hperm.mem_iff, ?_, ?_⟩
+  · intro c hc hce
+    exact h1 c hc hce
+  · intro c hc x hx y hy
+    have := h4 c hc x hx y hy
+    simpa using this
+  · intro x hx y hy hrel c hc hxc
+    obtain ⟨d, hfd, hd, hxd⟩ := hfind x hx
+    obtain ⟨e, hfe, he, hye⟩ := hfind y hy
+    have h := h5 x hx y hy hrel
+    rw [hfd, hfe] at h
+    simp only [Option.map_some, Option.some.injEq] at h
+    have hde : d.Perm e := perm_of_sortNat_eq h
+    have hcd : c = d := flat_nodup_unique comps hnd hc hd hxc hxd
+    rw [hcd]
+    exact hde.mem_iff.mpr hye
+
+/-- soundness of the equal-size checker: k parts, every node in exactly one, each of size at most n/k + 1 -/
+theorem C10_checkEqualSize_sound (nodes : List Nat) (k : Nat) (parts : List (List Nat))
+    (h : checkEqualSize nodes k parts = none) :
+    parts.length = k ∧ (parts.flatMap id).Perm nodes ∧ ∀ p ∈ parts, p.length ≤ nodes.length / k + 1 := by
+  unfold checkEqualSize at h
+  simp only at h
+  split at h
+  · cases h
+  next h1 =>
+  split at h
+  · cases h
+  next h2 =>
+  split at h
+  · cases h
+  next h3 =>
+  simp only [bne_iff_ne, ne_eq, Decidable.not_not] at h1 h2
+  refine ⟨h1, perm_of_sortNat_eq h2, ?_⟩
+  intro p hp
+  simp only [List.any_eq_true, not_exists, not_and, decide_eq_true_eq] at h3
+  have := h3 p hp
+  omega
+
+/-- soundness of the BFS checker: the start node first, no repeats, exactly the given reachable set -/
+theorem C10_checkBfs_sound (reach : List Nat) (x : Nat) (out : List Nat) (h : checkBfs reach x out = none) :
+    out.head? = some x ∧ out.Nodup ∧ out.Perm reach := by
+  unfold checkBfs at h
+  split at h
+  · cases h
+  next h1 =>
+  split at h
+  · cases h
+  next h2 =>
+  split at h
+  · cases h
+  next h3 =>
+  simp only [bne_iff_ne, ne_eq, Decidable.not_not] at h1 h2 h3
+  exact ⟨h1, (length_dedup_eq_iff' out).mp h2.symm, perm_of_sortNat_eq h3⟩
+
+/-- the arithmetic behind `partition_max_size = n / k + 1`: k parts of that size always have room for all n nodes,
+    and k - 1 full parts never hold them all unless ... the last part can never fill up before every node is placed -/
+theorem C10_equal_size_arith (n k : Nat) (hk : 0 < k) : n < k * (n / k + 1) := by
+  have h1 := Nat.div_add_mod n k
+  have h2 := Nat.mod_lt n hk
+  rw [Nat.mul_succ]
+  omega
+
+/-- reachability along a neighbour function -/
+inductive ReachR (nb : Nat → List Nat) : Nat → Nat → Prop
+  | refl (x : Nat) : ReachR nb x x
+  | step {x y z : Nat} : ReachR nb x y → z ∈ nb y → ReachR nb x z
+
+/-! ### the BFS loop: a pure description of one level, and its invariant -/
+
+/-- one step of the per-level fold of `bfsLevels`, without the `Outcome` wrapper -/
+private def stepP (nbl : Nat → List Nat) (st : List Nat × List Nat × List Nat) (v : Nat) :
+    List Nat × List Nat × List Nat :=
+  if st.1.contains v then st else (sinsert st.1 v, st.2.1 ++ [v], sunion st.2.2 (dedup (nbl v)))
+
+/-- the neighbour names the model reads for `v` -/
+private def nblOf (s : Store) (v : Nat) : List Nat :=
+  match s.getSuccessorsOrNeighbors v with
+  | .ok l => l.map (·.name)
+  | _ => []
+
+/-- the per-level fold step of `bfsLevels` (copied verbatim) -/
+private def bfsStep (s : Store) :
+    Outcome (List Nat × List Nat × List Nat) → Nat → Outcome (List Nat × List Nat × List Nat) :=
+  fun (acc : Outcome (List Nat × List Nat × List Nat)) v => do
+        let (seen, ret, next) ← acc
+        if seen.contains v then .ok (seen, ret, next)
+        else do
+          let nb ← s.getSuccessorsOrNeighbors v
+          .ok (sinsert seen v, ret ++ [v], sunion next (dedup (nb.map (·.name))))
+
+private theorem bfsLevels_succ (s : Store) (fuel : Nat) (level seen ret : List Nat) :
+    s.bfsLevels (fuel + 1) level seen ret =
+      if level.isEmpty then .ok ret
+      else match level.foldl (bfsStep s) (.ok (seen, ret, [])) with
+        | .ok (seen, ret, next) => s.bfsLevels fuel next seen ret
+        | .err k => .err k
+        | .panic site => .panic site := by
+  rw [Store.bfsLevels]
+  rfl
+
+private theorem bfsStep_ok (s : Store) (st : List Nat × List Nat × List Nat) (v : Nat) (l : List Node)
+    (hl : s.getSuccessorsOrNeighbors v = .ok l) :
+    bfsStep s (.ok st) v = .ok (stepP (nblOf s) st v) := by
+  obtain ⟨seen, ret, next⟩ := st
+  show (if seen.contains v then Outcome.ok (seen, ret, next)
+        else (s.getSuccessorsOrNeighbors v).bind fun nb =>
+          .ok (sinsert seen v, ret ++ [v], sunion next (dedup (nb.map (·.name))))) = _
+  unfold stepP nblOf
+  rw [hl]
+  by_cases hc : seen.contains v = true
+  · simp only [hc, if_true]
+  · simp only [hc, Outcome.bind]
+    rfl
+
+private theorem bfsFold_ok (s : Store) (level : List Nat)
+    (hl : ∀ v ∈ level, ∃ l, s.getSuccessorsOrNeighbors v = .ok l)
+    (st : List Nat × List Nat × List Nat) :
+    level.foldl (bfsStep s) (.ok st) = .ok (level.foldl (stepP (nblOf s)) st) := by
+  induction level generalizing st with
+  | nil => rfl
+  | cons v vs ih =>
+    obtain ⟨l, hv⟩ := hl v (List.mem_cons_self)
+    rw [List.foldl_cons, List.foldl_cons, bfsStep_ok s st v l hv]
+    exact ih (fun w hw => hl w (List.mem_cons_of_mem _ hw)) _
+
+/-- **the invariant of one BFS level** -/
+private theorem level_inv (nb nbl : Nat → List Nat) (x : Nat)
+    (hnbl : ∀ v, ReachR nb x v → ∀ z, z ∈ nbl v ↔ z ∈ nb v) (level : List Nat) :
+    ∀ (seen ret next : List Nat),
+      ret.Nodup → (∀ y, y ∈ seen ↔ y ∈ ret) → (∀ y ∈ ret, ReachR nb x y) →
+      (∀ y ∈ next, ReachR nb x y) → (∀ v ∈ level, ReachR nb x v) →
+      ∃ seen' ret' next', level.foldl (stepP nbl) (seen, ret, next) = (seen', ret', next') ∧
+        ret'.Nodup ∧ (∀ y, y ∈ seen' ↔ y ∈ ret') ∧ (∀ y ∈ ret', ReachR nb x y) ∧
+        (∀ y ∈ next', ReachR nb x y) ∧
+        (∃ ext, ret' = ret ++ ext ∧ ∀ v ∈ ext, v ∈ level) ∧ (∀ v ∈ level, v ∈ ret') ∧
+        (∀ y ∈ next, y ∈ next') ∧
+        (∀ y ∈ ret', y ∈ ret ∨ ∀ z ∈ nb y, z ∈ next') ∧
+        ((ret' = ret ∧ next' = next) ∨ ret.length < ret'.length) := by
+  induction level with
+  | nil =>
+    intro seen ret next hnd hsr hret hnext _
+    exact ⟨seen, ret, next, rfl, hnd, hsr, hret, hnext, ⟨[], by simp, by simp⟩, by simp,
+      fun y hy => hy, fun y hy => Or.inl hy, Or.inl ⟨rfl, rfl⟩⟩
+  | cons v vs ih =>
+    intro seen ret next hnd hsr hret hnext hlevel
+    have hv : ReachR nb x v := hlevel v List.mem_cons_self
+    have hvs : ∀ w ∈ vs, ReachR nb x w := fun w hw => hlevel w (List.mem_cons_of_mem _ hw)
+    rw [List.foldl_cons]
+    by_cases hc : seen.contains v = true
+    · have hst : stepP nbl (seen, ret, next) v = (seen, ret, next) := by
+        unfold stepP; simp only [hc, if_true]
+      rw [hst]
+      obtain ⟨seen', ret', next', hf, h1, h2, h3, h4, ⟨ext, hext, hextm⟩, h6, h7, h8, h9⟩ :=
+        ih seen ret next hnd hsr hret hnext hvs
+      refine ⟨seen', ret', next', hf, h1, h2, h3, h4,
+        ⟨ext, hext, fun w hw => List.mem_cons_of_mem _ (hextm w hw)⟩, ?_, h7, h8, h9⟩
+      intro w hw
+      rcases List.mem_cons.mp hw with rfl | hw
+      · have : w ∈ ret := (hsr w).mp (by simpa using hc)
+        rw [hext]; exact List.mem_append_left _ this
+      · exact h6 w hw
+    · have hvseen : v ∉ seen := by simpa using hc
+      have hvret : v ∉ ret := fun h => hvseen ((hsr v).mpr h)
+      have hst : stepP nbl (seen, ret, next) v =
+          (sinsert seen v, ret ++ [v], sunion next (dedup (nbl v))) := by
+        unfold stepP; simp only [hc]; rfl
+      rw [hst]
+      have hnd1 : (ret ++ [v]).Nodup := by
+        rw [List.nodup_append]
+        refine ⟨hnd, by simp, ?_⟩
+        intro a ha b hb
+        rw [List.mem_singleton] at hb
+        subst hb
+        intro hab; subst hab; exact hvret ha
+      have hsr1 : ∀ y, y ∈ sinsert seen v ↔ y ∈ ret ++ [v] := by
+        intro y
+        rw [mem_sinsert', List.mem_append, List.mem_singleton, hsr y]
+      have hret1 : ∀ y ∈ ret ++ [v], ReachR nb x y := by
+        intro y hy
+        rcases List.mem_append.mp hy with hy | hy
+        · exact hret y hy
+        · rw [List.mem_singleton] at hy; subst hy; exact hv
+      have hnext1mem : ∀ y, y ∈ sunion next (dedup (nbl v)) ↔ y ∈ next ∨ y ∈ nb v := by
+        intro y
+        rw [mem_sunion', mem_dedup', hnbl v hv y]
+      have hnext1 : ∀ y ∈ sunion next (dedup (nbl v)), ReachR nb x y := by
+        intro y hy
+        rcases (hnext1mem y).mp hy with hy | hy
+        · exact hnext y hy
+        · exact ReachR.step hv hy
+      obtain ⟨seen', ret', next', hf, h1, h2, h3, h4, ⟨ext, hext, hextm⟩, h6, h7, h8, h9⟩ :=
+        ih _ _ _ hnd1 hsr1 hret1 hnext1 hvs
+      have hvret' : v ∈ ret' := by rw [hext]; simp
+      refine ⟨seen', ret', next', hf, h1, h2, h3, h4, ⟨v :: ext, by rw [hext]; simp, ?_⟩, ?_, ?_, ?_, ?_⟩
+      · intro w hw
+        rcases List.mem_cons.mp hw with rfl | hw
+        · exact List.mem_cons_self
+        · exact List.mem_cons_of_mem _ (hextm w hw)
+      · intro w hw
+        rcases List.mem_cons.mp hw with rfl | hw
+        · exact hvret'
+        · exact h6 w hw
+      · intro y hy
+        exact h7 y ((hnext1mem y).mpr (Or.inl hy))
+      · intro y hy
+        rcases h8 y hy with h | h
+        · rcases List.mem_append.mp h with h | h
+          · exact Or.inl h
+          · rw [List.mem_singleton] at h; subst h
+            exact Or.inr fun z hz => h7 z ((hnext1mem z).mpr (Or.inr hz))
+        · exact Or.inr h
+      · right
+        have : (ret ++ [v]).length ≤ ret'.length := by
+          rcases h9 with ⟨h, _⟩ | h
+          · rw [h]; exact Nat.le_refl _
+          · exact Nat.le_of_lt h
+        rw [List.length_append, List.length_singleton] at this
+        omega
+
+/-- when every node of the pending level is already listed, the list is the answer -/
+private theorem bfs_final (nb : Nat → List Nat) (x : Nat) (level ret : List Nat)
+    (hnd : ret.Nodup) (hret : ∀ y ∈ ret, ReachR nb x y)
+    (hclos : ∀ y ∈ ret, ∀ z ∈ nb y, z ∈ ret ∨ z ∈ level)
+    (hhead : (ret = [] ∧ level = [x]) ∨ ret.head? = some x)
+    (hdone : ∀ y ∈ level, y ∈ ret) :
+    ret.head? = some x ∧ ret.Nodup ∧ ∀ y, y ∈ ret ↔ ReachR nb x y := by
+  have hh : ret.head? = some x := by
+    rcases hhead with ⟨h1, h2⟩ | h
+    · have : x ∈ ret := hdone x (by rw [h2]; exact List.mem_singleton.mpr rfl)
+      rw [h1] at this; cases this
+    · exact h
+  have hxret : x ∈ ret := List.mem_of_head? hh
+  refine ⟨hh, hnd, fun y => ⟨hret y, ?_⟩⟩
+  intro hy
+  induction hy with
+  | refl => exact hxret
+  | step _ hz ih =>
+    rcases hclos _ ih _ hz with h | h
+    · exact h
+    · exact hdone _ h
+
+private theorem bfs_outer (s : Store) (nb : Nat → List Nat) (x : Nat)
+    (hok : ∀ v, ReachR nb x v → ∃ l, s.getSuccessorsOrNeighbors v = .ok l)
+    (hnbl : ∀ v, ReachR nb x v → ∀ z, z ∈ nblOf s v ↔ z ∈ nb v)
+    (hnames : ∀ v, ReachR nb x v → v ∈ s.getAllNodeNames) :
+    ∀ (fuel : Nat) (level seen ret out : List Nat),
+      ret.Nodup → (∀ y, y ∈ seen ↔ y ∈ ret) → (∀ y ∈ ret, ReachR nb x y) →
+      (∀ y ∈ level, ReachR nb x y) →
+      (∀ y ∈ ret, ∀ z ∈ nb y, z ∈ ret ∨ z ∈ level) →
+      ((ret = [] ∧ level = [x]) ∨ ret.head? = some x) →
+      ((∀ y ∈ level, y ∈ ret) ∨ s.getAllNodeNames.length < ret.length + fuel) →
+      s.bfsLevels fuel level seen ret = .ok out →
+      out.head? = some x ∧ out.Nodup ∧ ∀ y, y ∈ out ↔ ReachR nb x y := by
+  intro fuel
+  induction fuel with
+  | zero =>
+    intro level seen ret out hnd hsr hret hlevel hclos hhead hfuel h
+    rw [Store.bfsLevels] at h
+    cases h
+    have hlen : ret.length ≤ s.getAllNodeNames.length :=
+      (hnd.subperm (fun y hy => hnames y (hret y hy))).length_le
+    rcases hfuel with hdone | hlt
+    · exact bfs_final nb x level ret hnd hret hclos hhead hdone
+    · omega
+  | succ fuel ih =>
+    intro level seen ret out hnd hsr hret hlevel hclos hhead hfuel h
+    rw [bfsLevels_succ] at h
+    by_cases hemp : level.isEmpty = true
+    · rw [if_pos hemp] at h
+      cases h
+      have hl : level = [] := List.isEmpty_iff.mp hemp
+      exact bfs_final nb x level ret hnd hret hclos hhead (by rw [hl]; intro y hy; cases hy)
+    · rw [if_neg hemp, bfsFold_ok s level (fun v hv => hok v (hlevel v hv))] at h
+      obtain ⟨seen', ret', next', hf, h1, h2, h3, h4, ⟨ext, hext, hextm⟩, h6, _, h8, h9⟩ :=
+        level_inv nb (nblOf s) x hnbl level seen ret [] hnd hsr hret (by intro y hy; cases hy) hlevel
+      rw [hf] at h
+      have hsub : ∀ y ∈ ret, y ∈ ret' := fun y hy => by rw [hext]; exact List.mem_append_left _ hy
+      refine ih next' seen' ret' out h1 h2 h3 h4 ?_ ?_ ?_ h
+      · intro y hy z hz
+        rcases h8 y hy with hyr | hnew
+        · rcases hclos y hyr z hz with hz' | hz'
+          · exact Or.inl (hsub z hz')
+          · exact Or.inl (h6 z hz')
+        · exact Or.inr (hnew z hz)
+      · right
+        rcases hhead with ⟨hr, hl⟩ | hh
+        · subst hr
+          rw [List.nil_append] at hext
+          subst hext
+          have hxr : x ∈ ret' := h6 x (by rw [hl]; exact List.mem_singleton.mpr rfl)
+          cases ret' with
+          | nil => cases hxr
+          | cons a t =>
+            have : a ∈ level := hextm a List.mem_cons_self
+            rw [hl, List.mem_singleton] at this
+            rw [this]; rfl
+        · cases ret with
+          | nil => cases hh
+          | cons a t =>
+            rw [hext]
+            exact hh
+      · rcases h9 with ⟨_, hn⟩ | hlt
+        · left; rw [hn]; intro y hy; cases hy
+        · right
+          rcases hfuel with hdone | hf'
+          · exfalso
+            cases ext with
+            | nil => rw [hext, List.append_nil] at hlt; omega
+            | cons a t =>
+              have ha : a ∈ ret := hdone a (hextm a List.mem_cons_self)
+              rw [hext, List.nodup_append] at h1
+              exact h1.2.2 a ha a List.mem_cons_self rfl
+          · omega
+
+/-- **the model's `breadth_first_search` is correct on every graph**: it lists the start node first and then every
+    reachable node exactly once.  `nb` is the neighbour function `get_successors_or_neighbors` computes (C02 relates it
+    to the edge list); `names` are the node names. -/
+theorem C10_bfs_correct (s : Store) (nb : Nat → List Nat) (x : Nat) (out : List Nat)
+    (hnd : s.getAllNodeNames.Nodup) (hx : x ∈ s.getAllNodeNames)
+    (hnb : ∀ y ∈ s.getAllNodeNames, ∃ l, s.getSuccessorsOrNeighbors y = .ok l ∧
+              (∀ z, z ∈ l.map (·.name) ↔ z ∈ nb y) ∧ (∀ z ∈ nb y, z ∈ s.getAllNodeNames))
+    (h : s.breadthFirstSearch x = .ok out) :
+    out.head? = some x ∧ out.Nodup ∧ ∀ y, y ∈ out ↔ ReachR nb x y := by
+  have _ := hnd  -- not needed: the length bound uses only that the output is duplicate-free
+  have hnames : ∀ v, ReachR nb x v → v ∈ s.getAllNodeNames := by
+    intro v hv
+    induction hv with
+    | refl => exact hx
+    | step _ hz ih =>
+      obtain ⟨_, _, _, h3⟩ := hnb _ ih
+      exact h3 _ hz
+  have hok : ∀ v, ReachR nb x v → ∃ l, s.getSuccessorsOrNeighbors v = .ok l := by
+    intro v hv
+    obtain ⟨l, hl, _⟩ := hnb v (hnames v hv)
+    exact ⟨l, hl⟩
+  have hnbl : ∀ v, ReachR nb x v → ∀ z, z ∈ nblOf s v ↔ z ∈ nb v := by
+    intro v hv z
+    obtain ⟨l, hl, h2, _⟩ := hnb v (hnames v hv)
+    unfold nblOf
+    rw [hl]
+    exact h2 z
+  unfold Store.breadthFirstSearch at h
+  refine bfs_outer s nb x hok hnbl hnames (s.numNodes + 2) [x] [] [] out List.nodup_nil
+    (fun y => Iff.rfl) (by intro y hy; cases hy) ?_ (by intro y hy; cases hy)
+    (Or.inl ⟨rfl, rfl⟩) ?_ h
+  · intro y hy
+    rw [List.mem_singleton] at hy
+    subst hy
+    exact ReachR.refl _
+  · right
+    simp only [Store.getAllNodeNames, Store.numNodes, List.length_map, List.length_nil]
+    omega
+
+/-- What remains unproved for C10 (kept visible): for every directed store satisfying the coupling invariant and
+    every iteration order of the neighbour sets, the model of `strongly_connected_components` returns the partition of
+    the nodes by mutual reachability. -/
+def C10_scc_full_statement : Prop :=
+  ∀ (s : Store), s.specs.directed = true →
+    ∀ comps, s.stronglyConnectedComponents = .ok comps →
+      checkPartitionBy s.getAllNodeNames
+        (fun p q => (reachSet (fun y => (alookup s.succ y).getD []) s.numNodes p).contains q &&
+                    (reachSet (fun y => (alookup s.succ y).getD []) s.numNodes q).contains p) comps = none
+
+/-- non-vacuity of the partition checker -/
+example : checkPartitionBy [1, 2, 3] (fun a b => (a == b) || (a != 3 && b != 3)) [[2, 1], [3]] = none := by
+  decide
+
 end Graphrs
